@@ -411,11 +411,16 @@ func (w *World) Step(no int, st Step, b *Behaviour) error {
 		if p := optStr(st.Opt, "pres"); p != "" {
 			aopts = append(aopts, client.WithPresence(presence.Data{"p0": p}))
 		}
-		if rep != nil {
+		if rep != nil && !rep.Pre {
 			rep.stop()
 		}
 		w.sessCtr[st.C+"/"+st.D]++
-		rep = &Rep{D: document.New(key.Key(w.DocKeys[st.D]), dopts...), Sess: w.sessCtr[st.C+"/"+st.D]}
+		if rep != nil && rep.Pre {
+			// the instance was edited before its first attach
+			rep.Pre, rep.Sess = false, w.sessCtr[st.C+"/"+st.D]
+		} else {
+			rep = &Rep{D: document.New(key.Key(w.DocKeys[st.D]), dopts...), Sess: w.sessCtr[st.C+"/"+st.D]}
+		}
 		rep.drainEvents()
 		c.Docs[st.D] = rep
 		err := c.C.Attach(w.Ctx, rep.D, aopts...)
@@ -574,6 +579,33 @@ func (w *World) Step(no int, st Step, b *Behaviour) error {
 		} else {
 			ev["seq"], ev["epoch"], ev["rows"] = 0, 0, []any{}
 		}
+	case "preedit":
+		// edits on a document instance that has not been attached yet (the SDK allows it): a container of the
+		// client's own plus two dependent edits. Only used by reproducers of known findings.
+		if !precond(c != nil && (rep == nil || rep.Pre), "already attached once") {
+			return nil
+		}
+		if rep == nil {
+			rep = &Rep{D: document.New(key.Key(w.DocKeys[st.D])), Pre: true}
+			rep.drainEvents()
+			c.Docs[st.D] = rep
+		}
+		name := "pre" + st.C
+		err := rep.D.Update(func(r *json.Object, p *presence.Presence) error {
+			r.SetNewText(name).Edit(0, 0, "ab")
+			return nil
+		})
+		if err == nil {
+			err = rep.D.Update(func(r *json.Object, p *presence.Presence) error {
+				r.GetText(name).Edit(1, 1, "X")
+				return nil
+			})
+		}
+		w.captureChanges(st.D, rep)
+		ev["ev"] = "Pre"
+		ev["ok"], ev["err"] = err == nil, errClass(err)
+		w.T.Emit(ev)
+		return nil
 	case "revision":
 		info := w.docInfoOf(st.D)
 		if !precond(info != nil, "no doc") {
